@@ -361,6 +361,19 @@ Section Run.
       end
     end.
 
+  (* QuotedString.parseImpl on the text at the current position: (token text, rest after the end quote) *)
+  Definition quoted_scan (q endq : pystr) (esc : option ch) (multiline unq convws : bool) (rest : pystr)
+    : option (pystr * pystr) :=
+    match match_prefix q rest with
+    | Some after_q =>
+        match quoted_body (S (length after_q)) endq esc multiline after_q with
+        | Some (body, after) =>
+            Some (if unq then unquote (S (length body)) esc convws body else q ++ body ++ endq, after)
+        | None => None
+        end
+    | None => None
+    end.
+
   Definition run_terminal (c : pcore) (p : pos) : ioutcome :=
     let rest := p_rest p in
     let ok (n : nat) (x : raw) := IOk (advance n p) x [] in
@@ -389,16 +402,8 @@ Section Run.
         | [] => IFail
         end
     | PQuoted q endq esc multiline unq convws =>
-        match match_prefix q rest with
-        | Some after_q =>
-            match quoted_body (S (length after_q)) endq esc multiline after_q with
-            | Some (body, after) =>
-                let total := length rest - length after in
-                let text := if unq then unquote (S (length body)) esc convws body
-                            else q ++ body ++ endq in
-                ok total (RStr text)
-            | None => IFail
-            end
+        match quoted_scan q endq esc multiline unq convws rest with
+        | Some (text, after) => ok (length rest - length after) (RStr text)
         | None => IFail
         end
     | PCharsNotIn cs mn mx =>
